@@ -435,4 +435,49 @@ def runAhead (data : List UInt8) (isFile : Bool) (minRead : Nat) (ops : List BOp
 /-- the same history on bytes.NewReader(data) -/
 def runBytesReader (data : List UInt8) (ops : List BOp) := runBytes depthFuel (.raw data 0 false) ops
 
+/-! ### ill-fitting sections (round 6): `NewSectionReader(r, bitOff, nBits)` checks NOTHING (sectiontreader.go:17-24),
+    so a section may reach past the end of the reader below it (bitOff+nBits > its length), start at or beyond its
+    end, or be empty.  What the code defines for such a section: every read is clamped TWICE — by the section's own
+    window (sectiontreader.go:30-34) and by the reader below, which stops at ITS logical end — so the section stands
+    for `slice (den r) bitOff nBits` with `slice` clamping at the end of `den r` (this is what `den` says), never for
+    a bit of anything below `r` that lies outside `r`'s range. -/
+
+/-- `SoundAt`, except that ErrOffset may also be reported for a read AT the logical end (not only beyond it): a section
+    that starts beyond the end of a ZeroReadAtSeeker is empty, a read at its offset 0 reaches the zero reader beyond its
+    end and gets ErrOffset instead of EOF (zeroreadatseeker.go:46) — no bits in either case -/
+structure SoundAtO (d : Bits) (off n : Nat) (r : Res) : Prop where
+  cnt : r.n = r.bits.length
+  le : r.bits.length ≤ n
+  bits : r.bits = slice d off r.bits.length
+  inb : off + r.bits.length ≤ d.length ∨ r.bits = []
+  eof : r.err = some .eof → d.length ≤ off + r.bits.length
+  prog : r.err = none → 0 < n → off < d.length → r.bits ≠ []
+  endErr : d.length ≤ off → 0 < n → r.err ≠ none
+  inside : 0 < n → off + n ≤ d.length → r.err = none
+  errs : r.err = none ∨ r.err = some .eof ∨ (r.err = some .offset ∧ d.length ≤ off ∧ r.bits = [])
+  noq : r.q = 0
+
+/-- `WFd` without the demand that a section lies inside the reader below it: ANY window (overhanging by bits or bytes,
+    starting at / beyond the end, empty), at every level of a nest of sections, over a byte buffer / file stack, a
+    zero reader or a (well-formed) MultiReader.  `base ≤ off` and `base ≤ limit` hold for every SectionReader that
+    NewSectionReader built with nBits ≥ 0 and that was only moved by accepted SeekBits calls.
+    (The parts of a MultiReader stay `WFd`: NewMultiReader takes a part's length from SeekBits(0, end), which for an
+    overhanging section is the NOMINAL length, so such a MultiReader has holes — outside this predicate.) -/
+def WFo : Nat → Rd → Prop
+  | d+1, .sect r base off limit => WFo d r ∧ base ≤ off ∧ base ≤ limit
+  | d+1, .multi rs ends pos => WFd (d+1) (.multi rs ends pos)
+  | _+1, .zero pos n => pos ≤ n
+  | d+1, .ioBits b bitPos _ => 0 ≤ bitPos ∧ ByteWF d b
+  | _, _ => False
+
+def SubOKO (sub : Sub) (P : Rd → Prop) (r : Rd) : Prop :=
+  ∀ (n off : Nat), ∃ r' res, sub r (.readAt n (off : Int)) = .ok (r', res) ∧ SoundAtO (den r) off n res ∧ P r' ∧ den r' = den r
+
+/-- the seeded variant S6-C01-1 of NewSectionReader: a section of a section is built directly on the parent's
+    underlying reader (r = sr.r; bitOff += sr.bitBase) — the parent's bitLimit is forgotten -/
+def newSectCollapsed (r : Rd) (bitOff nBits : Nat) : Rd :=
+  match r with
+  | .sect r0 b0 _ _ => .sect r0 (bitOff + b0) (bitOff + b0) (bitOff + b0 + nBits)
+  | r => newSect r bitOff nBits
+
 end FqModel.Bitio
